@@ -147,7 +147,11 @@ func runWorld(line string) string {
 		func() {
 			defer func() {
 				if r := recover(); r != nil {
-					out = "panic"
+					if _, crashed := r.(syCrash); crashed {
+						out = "crash"
+					} else {
+						out = "panic"
+					}
 				}
 			}()
 			if err := w.ctl.VerifSync(rcNS + "/" + rcSetName); err != nil {
@@ -223,8 +227,49 @@ func genWorldCase(rng *rand.Rand) *syCase {
 }
 
 func genWorld(rng *rand.Rand, n int, emit func(string)) {
+	kinds := []string{"conflict", "notfound", "exists", "invalid", "other", "timeout"}
 	for i := 0; i < n; i++ {
 		c := genWorldCase(rng)
+		switch rng.Intn(4) {
+		case 0:
+			// the process dies at one of the API calls of the first sync (learned from a dry run of one plain sync); the
+			// model does not predict the state a crash leaves, so these cases are judged by the monitors only
+			_, log := runSyncCase(c)
+			if len(log) > 0 {
+				j := rng.Intn(len(log))
+				occ := 0
+				for _, e := range log[:j] {
+					if e == log[j] {
+						occ++
+					}
+				}
+				c.faults = []syFault{{key: log[j], occ: occ, kind: "crash"}}
+			}
+		case 1:
+			// one or two failing calls in the first sync
+			_, log := runSyncCase(c)
+			for k := 0; k < 1+rng.Intn(2) && len(log) > 0; k++ {
+				j := rng.Intn(len(log))
+				occ := 0
+				for _, e := range log[:j] {
+					if e == log[j] {
+						occ++
+					}
+				}
+				if occ > 0 && (strings.HasPrefix(log[j], "delete:pod:") || strings.HasPrefix(log[j], "create:pod:")) {
+					continue
+				}
+				dup := false
+				for _, f := range c.faults {
+					if f.key == log[j] && f.occ == occ {
+						dup = true
+					}
+				}
+				if !dup {
+					c.faults = append(c.faults, syFault{key: log[j], occ: occ, kind: pick(rng, kinds...)})
+				}
+			}
+		}
 		emit(fmt.Sprintf("%d#%s", 24, c.line()))
 	}
 }
